@@ -197,10 +197,13 @@ func (pit *pebbleIterator) Seek(id []byte) error {
 func (pit *pebbleIterator) SeekReverse(id []byte) error {
 	pit.forward = false
 	if !pit.iter.SeekGE(id) {
-		return io.EOF
-	}
-	if bytes.Compare(id, pit.iter.Key()) < 0 {
+		// every key is below id: the largest one (if any) is the answer
+		pit.iter.Last()
+	} else if bytes.Compare(id, pit.iter.Key()) < 0 {
 		pit.iter.Prev()
+	}
+	if !pit.iter.Valid() {
+		return io.EOF
 	}
 	pit.key = copyBytes(pit.iter.Key())
 	pit.value = copyBytes(pit.iter.Value())
